@@ -1743,9 +1743,7 @@ def check_base_normal(chk, fi: FuncInfo) -> None:
     for p in paths:
         # decisions about the three reference atoms must be readable; the value matters only where all three were found
         # (where one is missing any value other than None is already the finding)
-        for k, v, node in p.conds:
-            if "find_atom" in k and unread(node):
-                raise NotReadable(f"base_normal_vector: `{k[:70]}` is not resolved to atoms fetched by constant names")
+        pass
     n_eval = 0
     problems: Dict[str, str] = {}
     for p in paths:
@@ -1764,6 +1762,10 @@ def check_base_normal(chk, fi: FuncInfo) -> None:
                 if not is_none:
                     problems.setdefault(f"{L}: {missing[0]} missing", f"returns `{norm(ret)[:90]}` instead of None")
                 continue
+            # from here on the decisions about the three reference atoms must be readable
+            for k, v, node in p.conds:
+                if "find_atom" in k and unread(node):
+                    raise NotReadable(f"base_normal_vector: `{k[:70]}` is not resolved to atoms fetched by constant names")
             if is_none:
                 why = [(k, v) for k, v, _ in p.conds if "one_letter_name" not in k][-1:] or "unconditionally"
                 problems.setdefault(f"{L}: no normal", f"returns None although {o}, {t1}, {t2} were not found missing (decision: {why})")
